@@ -237,13 +237,16 @@ struct Run
       cs.push_back(ClientState());
    }
 
-   void AddKeys(Message & m, const std::string & field)
+   // translate = false for commands whose patterns the server takes relative to the session directory even when they begin
+   // with '/' (REMOVEDATA, INSERTORDEREDDATA, REORDERDATA: AdjustStringPrefix without a prefix): there the second clause is
+   // an ordinary name clause, not a session id
+   void AddKeys(Message & m, const std::string & field, bool translate = true)
    {
       std::vector<std::string> pats = field.empty() ? std::vector<std::string>() : Split(field, '&');
       for (size_t i=0; i<pats.size(); i++)
       {
          std::string pat, flt; SplitSub(pats[i], pat, flt);
-         (void) m.AddString(PR_NAME_KEYS, RealPattern(pat).c_str());
+         (void) m.AddString(PR_NAME_KEYS, (translate ? RealPattern(pat) : pat).c_str());
          MessageRef fm = MkMsg(0);   // a dummy (empty) filter Message stops the "bleed-down" of the previous filter
          ConstQueryFilterRef qf = MkFilter(flt);
          if (qf()) (void) qf()->SaveToArchive(*fm());
@@ -286,7 +289,7 @@ struct Run
             at = 1;
          }
          else me.tainted = true;
-         AddKeys(*m(), (fs.size() > at) ? fs[at] : std::string());
+         AddKeys(*m(), (fs.size() > at) ? fs[at] : std::string(), (code != "r"));
          return m;
       }
       if (code == "p")
@@ -358,7 +361,7 @@ struct Run
       {
          MessageRef m = MkMsg(PR_COMMAND_INSERTORDEREDDATA);
          std::vector<std::string> pats = (fs.size() > 0 && !fs[0].empty()) ? Split(fs[0], '&') : std::vector<std::string>();
-         for (size_t i=0; i<pats.size(); i++) (void) m()->AddString(PR_NAME_KEYS, RealPattern(pats[i]).c_str());
+         for (size_t i=0; i<pats.size(); i++) (void) m()->AddString(PR_NAME_KEYS, pats[i].c_str());
          std::vector<std::string> items = (fs.size() > 1 && !fs[1].empty()) ? Split(fs[1], '&') : std::vector<std::string>();
          for (size_t i=0; i<items.size(); i++)
          {
@@ -377,7 +380,7 @@ struct Run
          for (size_t i=0; i<items.size(); i++)
          {
             const size_t eq = items[i].find('=');
-            (void) m()->AddString(RealPattern(items[i].substr(0, eq)).c_str(), (eq == std::string::npos) ? "" : items[i].substr(eq+1).c_str());
+            (void) m()->AddString(items[i].substr(0, eq).c_str(), (eq == std::string::npos) ? "" : items[i].substr(eq+1).c_str());
          }
          return m;
       }
